@@ -16,9 +16,9 @@ func init() {
 	Props["C19"] = Prop{
 		Title: "Open, Config.Build and std-log redirection are all-or-nothing; URLs validated",
 		Fn:    checkC19,
-		Explanation: "Decides, for all inputs, the release-on-error SHAPE of open/Open/openSinks/Config.Build (after any call that successfully acquired sinks, every return with a possibly non-nil error is preceded on its path by the matching closer; every successfully opened sink is recorded for closing; the closer visits all), " +
+		Explanation: "Decides, for all inputs, the release-on-error SHAPE of Open/Config.Build (after any call that successfully acquired sinks, every return with a possibly non-nil error is preceded on its path by the matching closer) and, by path exploration of open() over two destinations with each newSink outcome forked, that every sink that opened is recorded for closing, that a failure anywhere closes everything recorded before the error is returned, and that success hands out the closer of that same list (the closer visits all); file destinations are opened under exactly the given path, for writing with O_APPEND|O_CREATE, with stdout/stderr recognised in the path as given; " +
 			"that redirectStdLogAt cannot return an error after it changed the standard logger's settings and that its restore closure puts back the values read before the change, " +
-			"the guard set of the file-URL open (user, fragment, query, port, host tests dominate it; exactly u.Path is opened), and the registry discipline (single map store, dominated by the validity and absence tests, under the lock, normalised key, no error return after the store). " +
+			"the guard set of the file-URL open (user, fragment, query, port, host tests dominate it; exactly u.Path is opened), and the registry discipline, by path exploration of RegisterSink / RegisterEncoder (validator opaque, its outcome forked by the branch on its error): a store happens only after the emptiness and validity tests and a failed lookup of the same key, under the validated (lower-cased) key, with the lock held, at most once, and nil is returned exactly when something was stored; the scheme validator is evaluated over every byte value in first and later position. " +
 			"NOT decided: url.Parse behaviour, OS file semantics, what registered factories do.",
 		Assumptions: commonAssumptions,
 	}
